@@ -82,6 +82,23 @@ TExact == /\ IsEvent("Exact")
                /\ Observed(Ev, mm, st', bt')
           /\ UNCHANGED cfg
 
+\* Nearly reducible full transition matrices, uninformative data (every emission 1), fixed point (E4):
+\* pi6 = round(pi * 1e6), pi4 / P4 = round(. * 1e4), L6 = round(likelihood * 1e6).  Whatever the matrix, a
+\* stationary start vector is a distribution with pi P = pi (tolerances = worst-case rounding of the fixed-point
+\* encoding, (n+2) * 1e4 on products of 1e8), and the probability of uninformative data is 1 (design invariant
+\* UninformativeIsOne); L6 within 1e-5.
+Abs(x) == IF x < 0 THEN -x ELSE x
+NearOk(ev) ==
+  LET n == ev.n  S == 1..ev.n IN
+  /\ ev.mem /\ ev.Lr = "ok" /\ ev.fin
+  /\ \A i \in S : ev.pi6[i] >= 0
+  /\ Abs(SumV(ev.pi6) - 1000000) <= n + 1                                     \* sums to one
+  /\ \A i \in S : (\A j \in S : ev.P4[i][j] >= 0) /\ Abs(SumV(ev.P4[i]) - 10000) <= n + 1   \* row-stochastic
+  /\ \A j \in S : Abs(SumF(LAMBDA k : ev.pi4[k] * ev.P4[k][j], n) - ev.pi4[j] * 10000) <= (n + 2) * 10000
+  /\ Abs(ev.L6 - 1000000) <= 10
+
+TNear == IsEvent("Near") /\ NearOk(Ev) /\ UNCHANGED <<vars, cfg>>
+
 Trivial == [n |-> 1, len |-> 1, P |-> << <<1>> >>, dP |-> 1, Pi |-> <<1>>, dPi |-> 1,
             E |-> << <<1>> >>, dE |-> 1, bps |-> <<>>, chunk |-> 1, dEm |-> << <<0>> >>, d2Em |-> << <<0>> >>,
             ex |-> <<0>>]
@@ -89,6 +106,6 @@ Trivial == [n |-> 1, len |-> 1, P |-> << <<1>> >>, dP |-> 1, Pi |-> <<1>>, dPi |
 TraceInit == /\ m = Trivial /\ pc = "done"
              /\ st = RunFwd(Trivial, FwdInit(Trivial)) /\ bt = RunBwd(Trivial, BwdInit(Trivial))
              /\ cfg = [n |-> 1] /\ l = 1
-TraceNext == TReset \/ TXUpdate \/ TExact
+TraceNext == TReset \/ TXUpdate \/ TExact \/ TNear
 TraceSpec == TraceInit /\ [][TraceNext]_<<vars, cfg, l>>
 =============================================================================
